@@ -81,6 +81,26 @@ Definition TotalisticRule_call_masked (k rule : N) (unsigned : bool) (cells : li
   (c : Z) (t : nat) : res N :=
   totalistic_rule_masked unsigned cells mask k rule.
 
+(* One TotalisticRule object called on a sequence of neighbourhoods (of any sizes and forms): __init__ stores
+   only k and rule, __call__ reads nothing else and writes nothing, so the answers are the independent results of
+   totalistic_rule, call by call. *)
+Inductive nbhd :=
+| Plain (unsigned : bool) (cells : list Z)
+| Masked (unsigned : bool) (cells : list Z) (mask : list bool).
+Definition totalistic_nb (k rule : N) (nb : nbhd) : res N :=
+  match nb with
+  | Plain u cells => totalistic_rule u cells k rule
+  | Masked u cells mask => totalistic_rule_masked u cells mask k rule
+  end.
+Definition TotalisticRule_call_nb (k rule : N) (nb : nbhd) (c : Z) (t : nat) : res N :=
+  match nb with
+  | Plain u cells => TotalisticRule_call k rule u cells c t
+  | Masked u cells mask => TotalisticRule_call_masked k rule u cells mask c t
+  end.
+(* calls = the (neighbourhood, c, t) arguments of the successive calls on the same object *)
+Definition TotalisticRule_seq (k rule : N) (calls : list (nbhd * Z * nat)) : list (res N) :=
+  map (fun a => match a with (nb, c, t) => TotalisticRule_call_nb k rule nb c t end) calls.
+
 (* the von Neumann mask of radius r as evolve2d builds it (ca_functions2d.py 361-366), row major:
    entry (i, j) is masked iff |r - i| + |r - j| > r *)
 Definition von_neumann_mask (r : nat) : list bool :=
